@@ -588,6 +588,15 @@ func Structures() []Entry {
 			Attributes:   map[string]*schema.AttributeSchema{"r": {Constraint: schema.AnyExpression{OfType: cty.String}, IsOptional: true}},
 		}
 	}, "r = root\n", "")
+	// a root-level targetable (no range of its own) with the same address as a block declaration
+	add("targetable-root-clash", func() *schema.BodySchema {
+		return &schema.BodySchema{
+			TargetableAs: schema.Targetables{{Address: lang.Address{lang.RootStep{Name: "foo"}, lang.AttrStep{Name: "bar"}}, AsType: cty.String, FriendlyName: "foo bar"}},
+			Attributes:   map[string]*schema.AttributeSchema{"x": {Constraint: schema.AnyExpression{OfType: cty.DynamicPseudoType}, IsOptional: true}},
+			Blocks: map[string]*schema.BlockSchema{"foo": {Labels: []*schema.LabelSchema{{Name: "n"}}, Body: &schema.BodySchema{Attributes: map[string]*schema.AttributeSchema{"a": strAttr(nil)}},
+				Address: &schema.BlockAddrSchema{Steps: schema.Address{schema.StaticStep{Name: "foo"}, schema.LabelStep{Index: 0}}, AsReference: true, BodyAsData: true, InferBody: true}}},
+		}
+	}, "foo \"bar\" {\n  a = \"v\"\n}\nx = foo.bar\n", "x = foo.bar\nfoo \"bar\" {\n}\n")
 
 	// --- modifiers of enclosing blocks: several levels, several labels
 	add("modifiers-deep", func() *schema.BodySchema {
